@@ -47,7 +47,7 @@ REACH_LINES = [
 REQUIRED = {"grids_checked": 20, "cells_compared": 100, "faces_compared": 200,
             "motion:random": 3, "motion:axis": 1, "motion:near_axis": 1,
             "dim1": 2, "dim2": 5, "dim3": 3, "embedded_base": 2,
-            "branch:flipped": 2, "branch:two-block": 2}
+            "branch:flipped": 2, "branch:two-block": 2, "recomputed_on_same_object": 5}
 ASSUMPTIONS = [
     "Q is a proper rotation built from a unit quaternion (det = +1 up to round-off)",
     "face normals are fixed by the cell_faces sign convention, hence compared without a "
@@ -112,6 +112,8 @@ def floor(tier):
                              {"q": [0.5, -0.5, 0.5, 0.5], "t": [0.0, 1.0, 2.0]}},
                     "variant": "two-block", "vseed": 0,
                     "motion": _FIXED_MOTIONS[(k + 2) % len(_FIXED_MOTIONS)]})
+    for k, c in enumerate(out):
+        c["recompute"] = bool(k % 2)
     return out
 
 
@@ -136,17 +138,19 @@ def generate(rng, tier, i):
         r = {"kind": "twoblock", "dim": 2, "n": n1, "n2": n2, "phys": L1, "phys2": L2,
              "tseed": int(rng.integers(0, 2**31)),
              "rigid": gg.random_rigid(rng) if rng.random() < 0.6 else None}
-        return {"grid": r, "variant": "two-block", "vseed": 0, "motion": _motion(rng)}
+        return {"grid": r, "variant": "two-block", "vseed": 0, "motion": _motion(rng),
+                "recompute": bool(rng.random() < 0.4)}
     if u < 0.2:
         r = gg.random_recipe(rng, dims=(1, 2), kinds=("graded", "nonconvex"), rigid="embedded")
     else:
-        r = gg.random_recipe(rng, rigid="embedded")
+        r = gg.random_recipe(rng, rigid="embedded", scales=(1e-4, 1e-3, 1e3))
     variant = "plain"
     vseed = 0
     if r["dim"] == 2 and gg.convex(r) and rng.random() < 0.3:
         variant = "flipped"
         vseed = int(rng.integers(1, 2**31))
-    return {"grid": r, "variant": variant, "vseed": vseed, "motion": _motion(rng)}
+    return {"grid": r, "variant": variant, "vseed": vseed, "motion": _motion(rng),
+            "recompute": bool(rng.random() < 0.4)}
 
 
 # ------------------------------------------------------------------------------ build
@@ -207,6 +211,12 @@ def check(case, mon):
 
     g0 = _build(case)
     g1 = _build(case)
+    if case.get("recompute"):
+        # the motion is applied to a grid object whose geometry was already computed
+        # (compute -> move the nodes -> recompute on the same object): nothing cached
+        # by the first computation may survive
+        g1.compute_geometry()
+        mon.count("recomputed_on_same_object")
     g1.nodes = Q @ g1.nodes + t
     g0.compute_geometry()
     g1.compute_geometry()
